@@ -28,6 +28,6 @@ for e in sorted(glob.glob(os.path.join(R, 'evidence', 'C*.json'))):
 evid = '\n'.join(rows)
 p = os.path.join(R, 'DESIGN.md'); s = open(p).read()
 for name, txt in (('FINDINGS', findings), ('SEEDED', seeded), ('EVIDENCE', evid)):
-    s = re.sub(r'<!-- BEGIN %s -->.*?<!-- END %s -->' % (name, name), '<!-- BEGIN %s -->\n%s\n<!-- END %s -->' % (name, txt, name), s, flags=re.S)
+    s = re.sub(r'<!-- BEGIN %s -->.*?<!-- END %s -->' % (name, name), lambda m, name=name, txt=txt: '<!-- BEGIN %s -->\n%s\n<!-- END %s -->' % (name, txt, name), s, flags=re.S)
 open(p, 'w').write(s)
 print("tables regenerated")
